@@ -21,7 +21,10 @@ func init() {
 			"and the annotations generated from Sign's SignerInfo; the annotation generator stores the lower-case hex text of sha256(cert.Raw) of every chain certificate under the thumbprint key and the signing time under the created key; " +
 			"the merge copies the descriptor's annotations (loop or maps.Copy) and the metadata pairs into one fresh map, replaces nothing but the Annotations of the descriptor it was handed and skips the replacement only without metadata; " +
 			"(c) gates: a digest reference that differs from the resolved digest, a reserved-prefix key (every element of the list: counting loop from 0 to its length, or slices.IndexFunc/ContainsFunc over the whole list with a HasPrefix predicate) and a key already present are fail-closed before Signer.Sign; " +
-			"the digest test is applied to the very string that was resolved, in the function that resolves (SignOCI or a helper whose success is a guard of Sign); (d) the repository parameter is used exactly for one Resolve and one PushSignature, counted per call path.",
+			"the digest test is applied to the very string that was resolved, in the function that resolves (SignOCI or a helper whose success is a guard of Sign); (d) the repository parameter is used exactly for one Resolve and one PushSignature, counted per call path. " +
+			"The gates of (c) are facts about values in roles (the string resolved, the resolved descriptor and its digest; this pair's key, the annotations handed in, a map holding at least those): an edge establishes a fact directly or as the verdict of a module helper " +
+			"(bool predicate, validator returning an error, lookup returning (value, ok), closure) every return of which with that verdict lies behind such an edge of its own, roles travelling with the arguments; the pairs may be examined in a loop of the merge or of a helper handed the metadata map, " +
+			"and taken over per pair or in bulk (maps.Copy / pure copy loop) where control arrives only over the exhaustion edge of the examining loop; the annotation generator may sit behind wrappers that return its map untouched; the thumbprint list is followed as a value (append chain, preallocated slice, helper handed the chain) over a counting loop 0..len(chain)-1.",
 		NotCov:  "what a concrete repository does on push; writes performed inside Signer implementations and dependencies.",
 		Trusted: []string{"go/types, go/ssa", "Go map/slice aliasing semantics", "go-digest Parse / Digest.Validate / Digest.String", "maps.Copy, slices.IndexFunc, slices.ContainsFunc, fmt %x of a byte array (standard library contracts)", "signer-owned manifest annotation map (table entry)"},
 	})
@@ -615,12 +618,30 @@ func c11SignOCI(c *Ctx, W *ssa.Function) {
 		}
 	}
 	c.Check(okAnn, "provenance/push-annotations", "the manifest annotations pushed are generated from the SignerInfo Signer.Sign returned", w.InstrPos(push), "annotations are "+desc(pa[4]))
+	// the generator proper may sit behind wrappers that hand its map on unchanged (c11Generator); the optional-interface
+	// probe on the signer is looked for in SignOCI and in those wrappers
+	var G *ssa.Function
+	probed := []*ssa.Function{W}
 	if gen != nil {
-		if G := staticCallee(gen); G != nil && w.IsProductFn(G) {
+		if G0 := staticCallee(gen); G0 != nil && w.IsProductFn(G0) {
+			tk, _ := w.constString("internal/envelope", "AnnotationX509ChainThumbprint")
+			ck, _ := w.depConstString("github.com/opencontainers/image-spec/specs-go/v1", "AnnotationCreated")
+			var wrappers []*ssa.Function
+			var why string
+			G, wrappers, why = c11Generator(w, G0, tk, ck)
+			if len(wrappers) > 0 || why != "" {
+				c.Check(why == "", "annotations/delivered", "the annotations pushed are the map the annotation generator returned, handed on unchanged by the helpers in between", w.FnPos(G0), why)
+			}
+			for _, wf := range wrappers {
+				c.SeenFn(wf.String())
+				probed = append(probed, wf)
+			}
 			c11AnnotationsWin(c, G)
 		}
 	}
-	probeAgreement(c, W, "probe")
+	for _, pf := range probed {
+		probeAgreement(c, pf, "probe")
+	}
 	// (c) gates before Sign
 	g := fi.GuardsOf(sign)
 	c.Evals++
@@ -651,23 +672,27 @@ func c11SignOCI(c *Ctx, W *ssa.Function) {
 	if merge != nil {
 		need("metadata-merge", "a successful metadata merge (reserved prefix / existing key refused)", c11ErrLabel(merge))
 	}
-	// digest pinning on the resolved string, decided in the frame of the function that resolves
-	rfi := w.Info(R)
-	cut := res.digestEdges(rfi)
+	// digest pinning on the resolved string, decided in the frame of the function that resolves: with the edges removed
+	// on which the digest fact is known (c11DigestFact — directly, or as the verdict of a helper that was handed the
+	// string and the descriptor), Sign (when SignOCI resolves) resp. a nil-error return of the resolving helper is out of
+	// reach. At least one such edge must exist; which of the two tests a rewrite keeps separate is not prescribed.
+	D := c11DigestFact()
+	rfr := res.frame()
+	cut := D.edges(rfr)
 	c.Evals++
 	var hit bool
 	if R == W {
 		hit = fi.reachHit(entryState(), cut, blocksOf(sign))
 	} else {
-		hit = !chainOK || rfi.successWitness(Mode{Kind: mErr}, entryState(), cut) != nil
+		hit = !chainOK || !D.outcome(rfr, c11Outcome{err: true})
 	}
-	c.Check(len(cut) >= 2 && !hit, "gate/digest-pinning", "effect-site gate (disjunctive): Signer.Sign is reachable only if the very string that was resolved equals the resolved digest or is not a digest at all", w.InstrPos(sign),
+	c.Check(D.prims() >= 2 && !hit, "gate/digest-pinning", "effect-site gate (disjunctive): Signer.Sign is reachable only if the very string that was resolved equals the resolved digest or is not a digest at all", w.InstrPos(sign),
 		fmt.Sprintf("a digest reference (%s) resolving to another digest reaches the signer", desc(resolve.Call.Args[1])))
 	if merge != nil {
 		c11Merge(c, staticCallee(merge))
 	}
-	if gen != nil {
-		c11Annotations(c, staticCallee(gen))
+	if G != nil {
+		c11Annotations(c, G)
 	}
 }
 
@@ -711,103 +736,36 @@ func c11Merge(c *Ctx, M *ssa.Function) {
 		c.Unk("merge/shape", "anchor: merge(descriptor, metadata)", site, why)
 		return
 	}
-	if m.loop == nil {
+	if m.loop == nil && m.xm == nil {
 		c.Bad("merge/loop", "the merge visits every metadata pair", site, "no loop over the metadata")
 		return
 	}
 	fi := m.fi
-	lsite := w.InstrPos(blockTerm(m.loop.Header))
-	// existing key: the edges on which the comma-ok lookup of this pair's key in the annotations handed in says "absent"
-	cutE := fi.edgesMatching(func(_ string, iff *ssa.If, truth bool) bool {
-		cond := stripNot(iff.Cond, &truth)
-		ex, ok := cond.(*ssa.Extract)
-		if !ok || ex.Index != 1 || truth {
-			return false
-		}
-		lk, ok := ex.Tuple.(*ssa.Lookup)
-		return ok && lk.CommaOk && m.origAnn(lk.X) && m.iterPart(lk.Index, 1)
-	})
-	c.Evals++
-	c.Check(c11IterGate(fi, m.loop, cutE), "merge/existing-key", "per-pair gate: a key already present in the artifact's annotations is refused", lsite, "an existing annotation can be overwritten: a pair can be taken over without its key having been looked up, and found absent, in the annotations of the descriptor handed in")
+	// what is done with maps (the union map, the copy of the annotations handed in, how the pairs arrive)
+	u := m.union()
+	fr := m.frame(u)
+	// where the pairs are examined: here, or in a helper that was handed the metadata map
+	x, xfr := m.examination(fr)
+	c.SeenFn(x.M.String())
+	lsite := w.InstrPos(blockTerm(x.loop.Header))
+	gate := func(f *c11Fact) bool {
+		c.Evals++
+		return xfr != nil && c11IterGate(x.fi, x.loop, f.edges(xfr))
+	}
+	// existing key / reserved prefix: per-pair gates. With the edges removed on which the fact is known (c11Fact: inline,
+	// or as the verdict of a helper that was handed this pair's key), an iteration of the examining loop can neither get
+	// back to the header nor leave through a success-capable exit (c11IterGate).
+	c.Check(gate(c11ExistingKeyFact()), "merge/existing-key", "per-pair gate: a key already present in the artifact's annotations is refused", lsite, "an existing annotation can be overwritten: a pair can be taken over without its key having been looked up, and found absent, in the annotations of the descriptor handed in")
 	// reserved prefixes: every element of the package-level list that holds the notary prefix
 	okRes := false
 	if rl := c11ReservedList(w); rl != nil {
-		okRes = m.reservedByLoop(rl) || m.reservedBySearch(rl)
+		okRes = gate(c11ReservedFact(rl))
 	}
-	c.Evals++
 	c.Check(okRes, "merge/reserved-prefix", "per-pair gate: a key with a reserved prefix (every element of the reserved list) is refused", lsite, "a reserved-prefix key can pass")
-	// the union: one fresh map U becomes the Annotations of the descriptor; it receives the annotations handed in (copy
-	// loop or maps.Copy — `for k, v := range src { dst[k] = v }` by definition) and the pair of each iteration; nothing
-	// else is written into a map here
-	var U ssa.Value
-	okFresh := len(m.annS) > 0
-	for _, s := range m.annS {
-		if U != nil && s.Val != U {
-			okFresh = false
-		}
-		U = s.Val
-	}
-	if _, isMake := U.(*ssa.MakeMap); !isMake {
-		okFresh = false
-	}
-	var copies, adds int
-	dominates := func(in ssa.Instruction) bool {
-		for _, s := range m.annS {
-			if !c11Before(in, s) {
-				return false
-			}
-		}
-		return true
-	}
-	for _, f := range append([]*ssa.Function{M}, closuresOf(M)...) {
-		for _, b := range f.Blocks {
-			for _, in := range b.Instrs {
-				switch x := in.(type) {
-				case *ssa.MapUpdate:
-					kx, _ := x.Key.(*ssa.Extract)
-					vx, _ := x.Value.(*ssa.Extract)
-					switch {
-					case x.Map != U || f != M:
-						okFresh = false
-					case m.iterPart(x.Key, 1) && m.iterPart(x.Value, 2):
-						adds++
-					case kx != nil && vx != nil && kx.Tuple == vx.Tuple && kx.Index == 1 && vx.Index == 2:
-						n, isNext := kx.Tuple.(*ssa.Next)
-						if isNext && m.origAnn(rangeOperand(n)) && dominates(blockTerm(n.Block())) {
-							copies++
-						} else {
-							okFresh = false
-						}
-					default:
-						okFresh = false
-					}
-				case *ssa.Call:
-					if _, isB := x.Call.Value.(*ssa.Builtin); isB {
-						if bi := x.Call.Value.(*ssa.Builtin); bi.Name() == "delete" || bi.Name() == "clear" {
-							okFresh = false
-						}
-						continue
-					}
-					uses := false
-					for _, a := range x.Call.Args {
-						if a == U && U != nil {
-							uses = true
-						}
-					}
-					if !uses {
-						continue
-					}
-					if calleeName(x) == "maps.Copy" && x.Call.Args[0] == U && m.origAnn(x.Call.Args[1]) && dominates(x) && f == M {
-						copies++
-					} else {
-						okFresh = false
-					}
-				}
-			}
-		}
-	}
-	c.Check(okFresh && copies == 1 && adds == 1, "merge/fresh-union", "the merged annotations are a fresh map filled with the artifact's own annotations and the metadata pairs (key -> value of the same iteration)", site,
-		fmt.Sprintf("copies=%d adds=%d all-fresh=%v", copies, adds, okFresh))
+	// the union (c11Union): one fresh map, the annotations handed in copied once, the pairs taken over once — per pair
+	// inside the examining loop or in bulk after its exhaustion
+	c.Check(u.fresh && u.copies == 1 && u.adds == 1, "merge/fresh-union", "the merged annotations are a fresh map filled with the artifact's own annotations and the metadata pairs (key -> value of the same iteration, or all pairs at once after every one of them was examined)", site,
+		fmt.Sprintf("copies=%d adds=%d all-fresh=%v", u.copies, u.adds, u.fresh))
 	// the result: the descriptor handed in with nothing but its Annotations replaced (c11MergeRoles refuses any other
 	// write to it); delivered as result 0 (by-value form) or left in the caller's variable (in-place form); an exit that
 	// does not pass the replacement is possible only when there is no metadata
@@ -865,7 +823,12 @@ func c11Annotations(c *Ctx, G *ssa.Function) {
 	ck, _ := w.depConstString("github.com/opencontainers/image-spec/specs-go/v1", "AnnotationCreated")
 	// the signer info parameter, by type (its position is not part of the behaviour)
 	si := paramWhere(G, isNamed("core/signature.SignerInfo"))
-	var okT, okC bool
+	var okT, okC, okLoop bool
+	// thumbprints: what is marshalled under the thumbprint key is, as an SSA value, the list of hex(sha256(cert.Raw)) over
+	// the whole chain of the SignerInfo — built here or by a helper that was handed the chain (c11Thumbs); each text is
+	// followed back to the Sum256 call it renders (c11HexOfSum)
+	fr := c11NewFrame(w, G)
+	fr.base["chain"] = func(v ssa.Value, _ ssa.Instruction) bool { return si != "" && desc(v) == si+".CertificateChain" }
 	for _, b := range G.Blocks {
 		for _, in := range b.Instrs {
 			mu, ok := in.(*ssa.MapUpdate)
@@ -876,32 +839,10 @@ func c11Annotations(c *Ctx, G *ssa.Function) {
 			switch kd {
 			case fmt.Sprintf("const:%q", tk):
 				okT = strings.HasPrefix(vd, "call:encoding/json.Marshal(") && strings.HasSuffix(vd, "#0")
+				th := &c11Thumbs{}
+				okLoop = th.list(fr, c11MarshalArg(mu.Value)) && th.fills > 0
 			case fmt.Sprintf("const:%q", ck):
 				okC = strings.HasPrefix(vd, "call:(time.Time).Format(call:ngo/internal/envelope.SigningTime("+si+")#0,")
-			}
-		}
-	}
-	// thumbprints: loop over the chain appending the hex text of sha256(cert.Raw) of this iteration's certificate;
-	// the text is followed back, as SSA values, to the Sum256 call it renders (c11HexOfSum)
-	loop := findLoop(G, func(d string) bool { return d == si+".CertificateChain" })
-	okLoop := false
-	if loop != nil {
-		for _, ci := range allCalls(G) {
-			call, ok := ci.(*ssa.Call)
-			if !ok {
-				continue
-			}
-			if bi, ok := call.Call.Value.(*ssa.Builtin); ok && bi.Name() == "append" && loopBlocks(loop.Header)[call.Block().Index] {
-				for _, el := range appendedElems(call.Call.Args[1]) {
-					sum := c11HexOfSum(el)
-					if sum == nil || !loopBlocks(loop.Header)[sum.Block().Index] {
-						continue
-					}
-					// the hashed bytes are cert.Raw of this iteration
-					if d := desc(sum.Call.Args[0]); strings.HasPrefix(d, si+".CertificateChain[") && strings.HasSuffix(d, "].Raw") {
-						okLoop = true
-					}
-				}
 			}
 		}
 	}
